@@ -1,5 +1,6 @@
 import Driver.Common
 import Crem.Model.Engine
+import Crem.Model.EngineGo
 import Crem.Model.Csv
 /-!
 Oracle of the `engine-seq`, `engine-raw` and `engine-conc` suites (properties C14, C15, C16).
@@ -277,6 +278,7 @@ def bodyStr : Body → String
     "sub " ++ (if items.isEmpty then "-" else String.intercalate "," items)
   | .solution _ => "solution"
   | .status => "status"
+  | .adminStatus d => "status:" ++ statusWord d
 
 def respStr (r : Response) : String := toString r.status ++ " " ++ bodyStr r.body
 
@@ -340,6 +342,8 @@ def setQuirk (q : Quirks) (kv : String) : Quirks :=
     | "solLazy" => { q with solLazy := b }
     | "poolAlias" => { q with poolAlias := b }
     | "scenarioEager" => { q with scenarioEager := b }
+    | "nullShadow" => { q with nullShadow := b }
+    | "joinStale" => { q with joinStale := b }
     | _ => q
   | _ => q
 
@@ -348,6 +352,15 @@ def step (d : St) (line : String) : St × String :=
   | ["reset"] => ({ d with st := {}, down := false, oracle := [] }, "ok")
   -- what the locking model (Crem/Model/Locking.lean) assumes about rest.MuxImpl.ServeHTTP and the handlers
   | ["facts", "servehttp"] => (d, "lock-first=1 unlock-deferred=1 go-statements=0")
+  -- … and about everything else that reaches the multiplexers' state (harness/cmd/suite_engine_conc.go, engine-facts, explains
+  -- each line; the answers describe the code the locking model was tied to, any other shape is a structural failure)
+  | ["facts", "servehttp-unique"] => (d, "servehttp=rest.MuxImpl serves=rest.MuxImpl.Start:mi")
+  | ["facts", "lock-sites"] => (d, "admin.Mux.changeStatus:defer:m.statusLock.Unlock admin.Mux.changeStatus:m.statusLock.Lock admin.Mux.timestampedStatus:defer:m.statusLock.Unlock admin.Mux.timestampedStatus:m.statusLock.Lock rest.MuxImpl.Exclusively:defer:mi.requestLock.Unlock rest.MuxImpl.Exclusively:mi.requestLock.Lock rest.MuxImpl.ServeHTTP:defer:mi.requestLock.Unlock rest.MuxImpl.ServeHTTP:mi.requestLock.Lock")
+  | ["facts", "go-statements"] => (d, "admin.Mux.WaitForShutdownSignal server.RestServer.Start server.RestServer.Start")
+  | ["facts", "startup"] => (d, "bootstrap=deriveEngineBehaviour,deriveInitialEngineState,runEngine,flushStreams start-before-go=s.apiMux.SetCacheMaxAge s.adminMux.SetCacheMaxAge s.adminMux.SetStatus")
+  | ["facts", "handlers"] => (d, "own=9 foreign=server.RestServer.WithApiMux:s.apiMux<-s.adminMux.StatusHandler")
+  | ["facts", "locksets"] => (d, "admin.Mux.Status@statusLock engineApi.Mux.model@requestLock engineApi.Mux.modelSolution@requestLock engineApi.Mux.solutionPool@requestLock engineApi.Mux.solutionSetTable@requestLock engineApi.SolutionPool.cache@requestLock rest.MuxImpl.server@-")
+  | ["facts", "post-start"] => (d, "start/go:rest.MuxImpl.server:C:ListenAndServe@- start/go:rest.MuxImpl.server:W@- start:admin.Mux.Status:R@statusLock start:admin.Mux.Status:W@statusLock start:engineApi.Mux.model:C:TearDown@requestLock start:engineApi.Mux.model:R@requestLock start:rest.MuxImpl.server:&@- start:rest.MuxImpl.server:C:Shutdown@-")
   | "quirks" :: kvs => ({ d with q := kvs.foldl setQuirk {} }, "ok")
   | "universe" :: rest =>
     match parseUniverse rest with
@@ -363,8 +376,12 @@ def step (d : St) (line : String) : St × String :=
       else
         let r : Request := { method := parseMethod method, path := unesc path, ctype := unesc ctype,
                              text := parseHexBytes (body.toList.drop 1), facts := f }
-        let (resp, s') := Crem.Engine.step d.q (world d) d.st r
-        ({ d with st := s' }, respStr resp ++ (if factsCheck r then "" else " csv-facts-differ"))
+        -- the Go-shaped transcription (Crem/Model/EngineGo.lean): guards first, partial operations at their use sites;
+        -- `.error` = a Go run-time panic the guards did not prevent (the token the harness prints for a recovered panic)
+        match Crem.EngineGo.stepGo d.q (world d) d.st r with
+        | .error _ => (d, "panic")
+        | .ok (resp, s') =>
+          ({ d with st := s' }, respStr resp ++ (if factsCheck r then "" else " csv-facts-differ"))
   | "raw" :: obs :: method :: path :: ctype :: body :: facts =>
     -- engine-raw: the same request, only the status is compared
     match parseFacts d facts with
@@ -374,10 +391,14 @@ def step (d : St) (line : String) : St × String :=
       else
         let r : Request := { method := parseMethod method, path := unesc path, ctype := unesc ctype,
                              text := parseHexBytes (body.toList.drop 1), facts := f }
-        let (resp, s') := Crem.Engine.step d.q (world d) d.st r
-        ({ d with st := s' }, toString resp.status ++ (if factsCheck r then "" else " csv-facts-differ"))
+        match Crem.EngineGo.stepGo d.q (world d) d.st r with
+        | .error _ => (d, "panic")
+        | .ok (resp, s') =>
+          ({ d with st := s' }, toString resp.status ++ (if factsCheck r then "" else " csv-facts-differ"))
   | ["admin", obs, method, path] =>
     if obs = "panic" then (d, "panic")
+    -- an operating system interrupt ends the shutdown waiter; the admin multiplexer's state stays what it was
+    else if method = "SIGINT" then (d, "signalled")
     else
       let (resp, down') := stepAdmin d.down (parseMethod method) (unesc path)
       ({ d with down := down' }, respStr resp)
